@@ -1,8 +1,8 @@
 #!/bin/bash
 # sweep.sh [tier] [ids...]: run every registered check sequentially on /repo, print rc and wall time
 TIER=${1:-quick}; shift
-IDS=${@:-$(python3 -c "import json; print(' '.join(sorted(json.load(open('/verif/engines/registry.json')))))")}
-cd /verif
+cd "$(dirname "$0")/.."; IDS=${@:-$(python3 -c "import json; print(' '.join(sorted(json.load(open('engines/registry.json')))))")}
+cd "$(dirname "$0")/.."
 for p in $IDS; do
   s=$(date +%s); bin/check $p --tier $TIER > /tmp/sweep-$p-$TIER.log 2>&1; rc=$?; e=$(date +%s)
   echo "$p tier=$TIER seed=${VERIF_SEED:-1} rc=$rc wall=$((e-s))s $(grep -c '^KNOWN-FINDING' /tmp/sweep-$p-$TIER.log) known $(grep -E '^VIOLATION|MACHINERY' /tmp/sweep-$p-$TIER.log | head -2 | cut -c1-120)"
